@@ -466,9 +466,12 @@ class _ChildrenList(_TaskList):
         :raises RuntimeError: if WBS integrity lost (i.e. task with same ID already exists)
         """
         _check_not_none(task, 'Task')
+        # find the task to insert before first: attaching appends task to this list and shifts indexes
+        siblings = [t for t in self._list if t is not task]
+        before = siblings[index] if index < len(siblings) else None
         task.parent = self.__parent
-        if len(self) > 0:
-            self.move(task, before=self[index])
+        if before is not None:
+            self.move(task, before=before)
 
     def move(self, tasks: Union['Task', Iterable['Task']], before: Optional['Task'] = None,
              after: Optional['Task'] = None) -> None:
